@@ -382,7 +382,8 @@ TS = int(os.environ.get("VERIF_THOROUGH_SCALE", "3"))
 ABORT_CAP = int(os.environ.get("VERIF_ABORT_CAP", "48"))
 
 
-def run_batch(cfg, cases, shards=None, timeout=600, wrapper=None, env=None, keep_order=True, cmd=None, case_timeout=None, _retry=False):
+def run_batch(cfg, cases, shards=None, timeout=600, wrapper=None, env=None, keep_order=True, cmd=None, case_timeout=None, _retry=False,
+              abort_cap=None, retry_timeouts=True):
     """Run cases on the runner built in configuration cfg, sharded over processes.
     Every case gets a result dict; abnormal ends are attributed to exactly one case:
     result['abort'] = {'why': 'signal'|'exit'|'timeout', ...}."""
@@ -405,7 +406,7 @@ def run_batch(cfg, cases, shards=None, timeout=600, wrapper=None, env=None, keep
         round_no = 0
         aborts = 0
         while pending:
-            if aborts >= ABORT_CAP:
+            if aborts >= (abort_cap or ABORT_CAP):
                 # a tree on which this many cases kill or hang the runner is broken beyond doubt: do not spend a
                 # watchdog period on each of the remaining cases (they are marked not-run, never judged)
                 for gi, group in pending:
@@ -458,7 +459,7 @@ def run_batch(cfg, cases, shards=None, timeout=600, wrapper=None, env=None, keep
     # A case that hit the per-case watchdog is judged on a run of its own with four times the allowance before anybody
     # believes it: on a loaded machine (other checks, builds, sixteen shards) a case that normally takes seconds can
     # exceed the watchdog without hanging. Only what times out again alone stays a timeout.
-    if not _retry:
+    if not _retry and retry_timeouts:
         slow = [c for c in cases if results.get(c["id"], {}).get("abort", {}).get("why") == "timeout"]
         for c in slow[:6]:
             r2 = run_batch(cfg, [c], shards=1, timeout=max(timeout, 600), wrapper=wrapper, env=env, cmd=cmd,
